@@ -61,16 +61,31 @@ func (env *Env) targetsFor(prop string) []propTarget {
 		fc := env.cs.Funcs[k]
 		for _, p := range fc.Props {
 			id, mode, _ := strings.Cut(p, "@")
+			if id == "CORE" && coreProps[prop] {
+				// the dispatch chain and the lifecycle functions: every worker-level property depends on them keeping their contracts
+				// (one dispatcher, buffered signal channel, queues left intact ...), so they are part of each of those checks
+				id = prop
+			}
 			if id == prop {
 				if mode == "" {
 					mode = "SEQ"
 				}
-				out = append(out, propTarget{k, mode})
+				dup := false
+				for _, o := range out {
+					if o.key == k && o.mode == mode {
+						dup = true
+					}
+				}
+				if !dup {
+					out = append(out, propTarget{k, mode})
+				}
 			}
 		}
 	}
 	return out
 }
+
+var coreProps = map[string]bool{"C01": true, "C02": true, "C03": true, "C04": true, "C06": true, "C09": true, "C14": true, "C17": true, "C18": true}
 
 type lockFile map[string][]string
 
